@@ -473,16 +473,14 @@ MUTANTS = [
       "    if event.id != Event.compute_id(\n        event.pubkey, event.created_at, event.kind, event.tags, event.content\n    ):\n        raise StorageError(\"invalid: Bad id\")\n",
       "", "C03.id"),
     M("c03-id-compare-logged-only", VAL, "        raise StorageError(\"invalid: Bad id\")", "        logging.getLogger(__name__).warning(\"bad id\")", "C03.id"),
-    M("c03-kv-drop-validate", KV, "        await self.validate_event(event, Config)\n\n        if not event.is_ephemeral:",
-      "        if not event.is_ephemeral:", "C03.gate", canary=True),
+    M("c03-kv-drop-validate", KV, "        await self.validate_event(event, Config)\n", "", "C03.gate", canary=True),
     M("c03-db-validate-after-insert", DB,
       "        await self.validate_event(event, Config)\n        # check authentication",
       "        # check authentication", "C03.gate"),
     M("c03-db-validate-swallowed", DB,
       "        await self.validate_event(event, Config)\n",
       "        try:\n            await self.validate_event(event, Config)\n        except StorageError:\n            self.log.debug('invalid')\n", "C03.gate"),
-    M("c03-kv-validate-unawaited", KV, "        await self.validate_event(event, Config)\n\n        if not event.is_ephemeral",
-      "        self.validate_event(event, Config)\n\n        if not event.is_ephemeral", "C03.gate"),
+    M("c03-kv-validate-unawaited", KV, "        await self.validate_event(event, Config)\n", "        self.validate_event(event, Config)\n", "C03.gate"),
     M("c03-chain-break", VAL, "                func(event, config)\n", "                func(event, config)\n                break\n", "C03.chain"),
     M("c03-chain-try", VAL, "                func(event, config)\n",
       "                try:\n                    func(event, config)\n                except StorageError:\n                    pass\n", "C03.chain"),
